@@ -972,7 +972,7 @@ def generate(rng, prop, tier):
             )
 
     def bpm():
-        return rng.choice([60, 120, 120, 90, 30, 240, rng.randrange(20, 401)])
+        return rng.choice([60, 120, 120, 90, 30, 240, rng.randrange(20, 401), 72.5, rng.randrange(40, 800) / 4.0])
 
     def solo_ops(n):
         for _ in range(n):
